@@ -1070,7 +1070,17 @@ pub fn generate(seed: u64, tier: Tier, p: &Profile) -> Scenario {
             let ret_addr = g.key_addr();
             if g.r.chance(1, 2) {
                 let t = *g.r.pick(&[total / 2, total / 3, 1_000_000, total, total.saturating_sub(g.min_ada(100))]);
-                coll_ops.push(Op::CollTotalAndReturn(t, ret_addr));
+                if g.r.chance(1, 6) {
+                    // plain setters first (whatever they hold is replaced by what the checked call computes)
+                    coll_ops.push(Op::CollTotal(t));
+                    if g.r.chance(1, 2) {
+                        coll_ops.push(Op::CollReturn(OutSpec { addr: ret_addr.clone(), coin: 1 + g.r.below(g.min_ada(0)), assets: vec![], datum: None, script_ref: None, min_coin: false, form: 0 }));
+                    }
+                }
+                coll_ops.push(Op::CollTotalAndReturn(t, ret_addr.clone()));
+                if g.r.chance(1, 6) {
+                    coll_ops.push(Op::CollTotalAndReturn(t, ret_addr));
+                }
             } else {
                 let mut ra: BTreeMap<(u16, Vec<u8>), u64> = BTreeMap::new();
                 for a in &cassets {
@@ -1137,7 +1147,34 @@ pub fn generate(seed: u64, tier: Tier, p: &Profile) -> Scenario {
                         }
                     }
                 }
-                coll_ops.push(Op::CollReturnAndTotal(OutSpec { addr: ret_addr, coin, assets, datum: rdatum, script_ref: rsref, min_coin: false, form: 0 }));
+                let mut main = OutSpec { addr: ret_addr, coin, assets, datum: rdatum, script_ref: rsref, min_coin: false, form: 0 };
+                // the same inline datum as another producer encoded it (equal value, other and longer bytes), if the world has one
+                let twin = match &main.datum {
+                    Some(DatumAt::Inline(d)) => g.w.datums.iter().position(|x| matches!(x, Pd::Alt(inner, _) if **inner == g.w.datums[*d as usize])).map(|t| t as u16),
+                    _ => None,
+                };
+                if twin.is_some() && g.r.chance(1, 2) {
+                    // the coin is exactly what the first form of the return needs
+                    let size = probe_output_size(&g.w, &OutSpec { coin: 1 << 20, ..main.clone() });
+                    main.coin = g.k.cpb * (160 + size);
+                }
+                if g.r.chance(1, 6) {
+                    // the plain (unchecked) setter first, then the checked call with the very same output: it has to be measured all the same
+                    coll_ops.push(Op::CollReturn(main.clone()));
+                    if g.r.chance(1, 3) {
+                        coll_ops.push(Op::CollTotal(total / 2));
+                    }
+                }
+                coll_ops.push(Op::CollReturnAndTotal(main.clone()));
+                if g.r.chance(1, 6) || twin.is_some() {
+                    // the same call again (a retry, F6), now and then with the twin encoding of the datum: a return that
+                    // is "already in place" is a new output as far as its size is concerned
+                    let mut again = main.clone();
+                    if let Some(t) = twin {
+                        again.datum = Some(DatumAt::Inline(t));
+                    }
+                    coll_ops.push(Op::CollReturnAndTotal(again));
+                }
             }
             if g.r.chance(1, 8) {
                 // later the percentage helper is tried although the fee is already fixed: it must fail and, as every
@@ -1322,7 +1359,9 @@ pub fn generate(seed: u64, tier: Tier, p: &Profile) -> Scenario {
     if pm(&mut g.r, p.observers) {
         for _ in 0..(1 + g.r.below(3)) {
             let at = g.r.usize_below(ops.len());
-            ops.insert(at, if g.r.chance(2, 3) { Op::Observe } else { Op::ForkClone });
+            // a body built in the middle of the history is a snapshot: the builder it came from is kept and
+            // must build the same bytes again after everything that happens to the live builder later
+            ops.insert(at, match g.r.below(6) { 0..=2 => Op::Observe, 3 | 4 => Op::ForkClone, _ => Op::Build });
         }
     }
     let rng = g.rng_plan(seed);
